@@ -9,17 +9,55 @@ namespace Sqf
 
 def renderNat (n : Nat) : List B := natDigits n
 
-/-- Rendering of an exact decimal the way the harness prints a float that holds it exactly. -/
+/-- number of decimal digits of a positive natural number -/
+def numDigits (n : Nat) : Nat := (natDigits n).length
+
+/-- round a mantissa with `k` digits to 6 significant digits (round half up on the decimal digits;
+    values of the property's class have at most 6 digits and are not rounded at all) -/
+def roundTo6 (mant : Nat) (exp : Int) : Nat × Int :=
+  let k := numDigits mant
+  if k ≤ 6 then (mant, exp)
+  else
+    let drop := k - 6
+    let q := mant / 10 ^ drop
+    let r := mant % 10 ^ drop
+    let q' := if 2 * r ≥ 10 ^ drop then q + 1 else q
+    (q', exp + drop)
+
+def pad2 (n : Nat) : List B := if n < 10 then [48] ++ natDigits n else natDigits n
+
+/-- `snprintf("%g", x)` for an exact decimal -/
+def fmtG (d0 : Dec) : List B :=
+  let d := d0.norm
+  let sign : List B := if d.neg then [45] else []
+  if d.mant == 0 then sign ++ [48]
+  else
+    let (m1, e1) := roundTo6 d.mant d.exp
+    let (m, e) := Dec.stripZeros 64 m1 e1
+    let ds := natDigits m
+    let k := ds.length
+    -- decimal exponent of the leading digit
+    let x : Int := e + (k : Int) - 1
+    if x < -4 || x ≥ 6 then
+      -- scientific: d.ddddde±XX
+      let frac := ds.drop 1
+      let mantText := ds.take 1 ++ (if frac.isEmpty then [] else [46] ++ frac)
+      let expText : List B := (if x < 0 then [45] else [43]) ++ pad2 x.natAbs
+      sign ++ mantText ++ [101] ++ expText
+    else if e ≥ 0 then sign ++ ds ++ List.replicate e.toNat 48
+    else
+      let fr := (-e).toNat
+      if k ≤ fr then sign ++ [48, 46] ++ List.replicate (fr - k) 48 ++ ds
+      else sign ++ ds.take (k - fr) ++ [46] ++ ds.drop (k - fr)
+
+/-- Rendering of an exact decimal the way the harness prints a float that holds it: integers in
+    full, everything else like `%g` (6 significant digits). -/
 def renderDec (d0 : Dec) : List B :=
   let d := d0.norm
   let sign : List B := if d.neg then [45] else []
   if d.mant == 0 then sign ++ [48]
-  else if d.exp ≥ 0 then sign ++ renderNat (d.mant * 10 ^ d.exp.toNat)
-  else
-    let ds := renderNat d.mant
-    let k := (-d.exp).toNat
-    if ds.length ≤ k then sign ++ [48, 46] ++ List.replicate (k - ds.length) 48 ++ ds
-    else sign ++ ds.take (ds.length - k) ++ [46] ++ ds.drop (ds.length - k)
+  else if d.exp ≥ 0 && decide (d.mant * 10 ^ d.exp.toNat < 16777216) then sign ++ renderNat (d.mant * 10 ^ d.exp.toNat)
+  else fmtG d
 
 def renderStr (s : List B) : List B :=
   [34] ++ s.flatMap (fun c => if c == 34 then [34, 34] else [c]) ++ [34]
@@ -31,35 +69,35 @@ def joinWith (sep : List B) : List (List B) → List B
 
 mutual
 def renderVal : Val → List B
-  | .nil => bytes "nil"
+  | .nil => n!"nil"
   | .num d => renderDec d
-  | .nan => bytes "nan"
-  | .bool true => bytes "true"
-  | .bool false => bytes "false"
+  | .nan => n!"nan"
+  | .bool true => n!"true"
+  | .bool false => n!"false"
   | .str s => renderStr s
-  | .ref id => bytes "<ref" ++ renderNat id ++ bytes ">"
+  | .ref id => n!"<ref" ++ renderNat id ++ n!">"
   | .code is => [123] ++ renderInstrs is ++ [125]
-  | .ifv _ => bytes "<IF>"
-  | .whilev _ => bytes "<WHILE>"
-  | .forv _ _ _ _ => bytes "<FOR>"
-  | .sw _ _ _ _ => bytes "<SWITCH>"
-  | .ns _ => bytes "<NAMESPACE>"
-  | .withv _ => bytes "<WITH>"
-  | .exc _ => bytes "<EXCEPTION>"
-  | .script _ => bytes "<SCRIPT>"
-  | .strace _ => bytes "<VM-STACKTRACE>"
-  | .mapref _ => bytes "<HASHMAP>"
+  | .ifv _ => n!"<IF>"
+  | .whilev _ => n!"<WHILE>"
+  | .forv _ _ _ _ => n!"<FOR>"
+  | .sw _ _ _ _ => n!"<SWITCH>"
+  | .ns _ => n!"<NAMESPACE>"
+  | .withv _ => n!"<WITH>"
+  | .exc _ => n!"<EXCEPTION>"
+  | .script _ => n!"<SCRIPT>"
+  | .strace _ => n!"<VM-STACKTRACE>"
+  | .mapref _ => n!"<HASHMAP>"
   | .other tag => [60] ++ tag ++ [62]
 def renderInstr : Instr → List B
-  | .push v => bytes "P:" ++ renderVal v
-  | .callNular n => bytes "n:" ++ n
-  | .callUnary n => bytes "u:" ++ n
-  | .callBinary n k => bytes "b" ++ renderNat k ++ bytes ":" ++ n
-  | .assignTo n => bytes "=:" ++ n
-  | .assignToLocal n => bytes "=l:" ++ n
-  | .getVariable n => bytes "g:" ++ n
-  | .makeArray k => bytes "a:" ++ renderNat k
-  | .endStatement => bytes ";"
+  | .push v => n!"P:" ++ renderVal v
+  | .callNular n => n!"n:" ++ n
+  | .callUnary n => n!"u:" ++ n
+  | .callBinary n k => n!"b" ++ renderNat k ++ n!":" ++ n
+  | .assignTo n => n!"=:" ++ n
+  | .assignToLocal n => n!"=l:" ++ n
+  | .getVariable n => n!"g:" ++ n
+  | .makeArray k => n!"a:" ++ renderNat k
+  | .endStatement => n!";"
 def renderInstrs : List Instr → List B
   | [] => []
   | [i] => renderInstr i
